@@ -38,7 +38,7 @@ SubjPairs(c, t) == LET s == t.s IN
 PredPartOK(x, p, opt) ==
     /\ (x.c # 0 => p = x.c)                                   \* fully written: same id, kind, instant
     /\ (x.pid # 0 => PRED[p].id = x.pid)                      \* "id"@[?t] or "id"@[lo,hi]
-    /\ (x.bd => IsTmp(p) /\ InBounds(PRED[p].n, x.lo, x.hi))  \* closed interval, temporal only
+    /\ (x.bd => IsTmp(p) /\ x.lo >= 0 /\ x.hi >= 0 /\ InBounds(PRED[p].n, x.lo, x.hi))  \* closed interval, temporal only
     /\ ((x.ab # "" /\ ~opt) => IsTmp(p))                      \* anchor binding needs an anchor
     /\ ((x.at # "" /\ ~opt) => IsTmp(p))                      \* AT needs an anchor
 TimeOrNull(p) == IF IsTmp(p) THEN Cell("T", PRED[p].n) ELSE Null
@@ -85,6 +85,15 @@ Unchecked(c, t, dv, i) == "oid-alias-unchecked" \in dv /\ i = OidIdx /\ t.o.k = 
 Consistent(c, t, ps, dv) == \A i, j \in Named(ps) :
     (ps[i][1] = ps[j][1] /\ ~Unchecked(c, t, dv, i) /\ ~Unchecked(c, t, dv, j)) => ps[i][2] = ps[j][2]
 
+\* Bounds written with BINDINGS: "id"@[?lo,?hi] (either side may also be a time or empty).  The binding is an INPUT of
+\* the clause: its value in the row that is being extended (a time anchor bound by an earlier clause) is the bound.
+\* c.p.lb / c.p.ub = the binding names ("" = the side is written as a time, c.p.lo / c.p.hi, or is empty).
+HasBoundNames(c) == "lb" \in DOMAIN c.p /\ (c.p.lb # "" \/ c.p.ub # "")
+BoundOf(a, name, const) == IF name = "" THEN const
+                           ELSE IF name \in DOMAIN a /\ a[name].k = "T" THEN a[name].v ELSE 0 - 1
+\* the predicate part of clause c as it reads for the row assignment a (0 - 1 = no usable value: matches nothing)
+PredFor(c, a) == IF ~HasBoundNames(c) THEN c.p
+                 ELSE [c.p EXCEPT !.lo = BoundOf(a, c.p.lb, c.p.lo), !.hi = BoundOf(a, c.p.ub, c.p.hi)]
 Matches(c, t, glo, ghi, dv) ==
     /\ SubjOK(c, t) /\ PredPartOK(c.p, t.p, c.opt) /\ ObjOK(c, t, c.opt)
     /\ GlobalOK(t, glo, ghi)
@@ -174,8 +183,9 @@ PrevNames(cs, i) == UNION {ClauseNames(cs[k]) : k \in 1..(i - 1)}
 Step(S, cs, i, D0, glo, ghi, dv, fs) ==
     LET c == cs[i]
         D == FilteredData(c, fs, D0, glo, ghi)
+        cx(x) == IF HasBoundNames(c) THEN [c EXCEPT !.p = PredFor(c, x.a)] ELSE c
         ext(x) == {[a |-> Merge(x.a, Assign(c, d[2])), w |-> Append(x.w, d)] :
-                      d \in {d \in D : Matches(c, d[2], glo, ghi, dv) /\ Compatible(x.a, Assign(c, d[2]))}}
+                      d \in {d \in D : Matches(cx(x), d[2], glo, ghi, dv) /\ Compatible(x.a, Assign(c, d[2]))}}
         nul(x) == [a |-> Merge(x.a, [b \in ClauseNames(c) |-> Null]), w |-> Append(x.w, <<0, NoTriple>>)]
     IN  IF "rows-without-bindings-dropped" \in dv /\ ClauseNames(c) = {} /\ ~Specific(c)
         \* deviation: such a clause never adds rows to the table: it is skipped while the table has no
@@ -221,7 +231,17 @@ Deviations == {"oid-alias-unchecked", "rows-without-bindings-dropped"}
 
 \* Patterns whose meaning the property leaves open: an OPTIONAL clause sharing a binding that only
 \* an earlier OPTIONAL clause introduced (NULL-vs-value compatibility is not defined).
+\* Not judged: a bound binding that no earlier MANDATORY clause binds in a position that always holds a time (the anchor
+\* binding or AT alias of a predicate) - the engine then fails the statement or ignores the bound, and nothing says which;
+\* such a clause in first position or inside OPTIONAL; the name reused by the clause itself.
+TimeNames(c) == {c.p.ab, c.p.at, c.o.ab, c.o.at} \ {""}
+PRED_TEMPORAL_ONLY(c) == TRUE   \* a mandatory clause only matches when its AT / anchor bindings get a time (PredPartOK, ObjOK)
+BoundNamesOpen(cs) == \E i \in DOMAIN cs : HasBoundNames(cs[i]) /\
+    LET c == cs[i]  ns == {c.p.lb, c.p.ub} \ {""}
+        ok == UNION {TimeNames(cs[k]) : k \in {k \in 1..(i - 1) : ~cs[k].opt /\ PRED_TEMPORAL_ONLY(cs[k])}}
+    IN  \/ c.opt \/ ~(ns \subseteq ok) \/ ns \cap ClauseNames(c) # {}
 OpenQuery(q) ==
+    \/ BoundNamesOpen(q.clauses)
     \/ (FiltersOf(q) # <<>> /\ FilterOpen(q.clauses, FiltersOf(q)))
     \/ \E i, j \in DOMAIN q.clauses : i < j /\ q.clauses[i].opt /\ q.clauses[j].opt /\
         \E b \in ClauseNames(q.clauses[i]) \cap ClauseNames(q.clauses[j]) :
